@@ -349,11 +349,9 @@ theorem C23_accepted_text (text : String) (ast : SInstr) (h : parse text = .ok a
   · split at h <;> cases h
   · split at h <;> cases h
 
-/-- **Totality of the model** — true by construction: `parse` is a total Lean function into
-`ok ast | error e | panic site` (every loop of the lexers and of the recogniser runs on fuel bounded
-by the text length, every `str` slice is the checked `Lex.sliceBytes`); an `ok` result is a complete
-tree.  What it says about the code rests on the correspondence runs.  The interesting content is
-which texts give `panic` (`C23_panic_witness`) . -/
+/-- `parse` is a total Lean function into `ok ast | error e | panic site` (every loop of the lexers and
+of the recogniser runs on fuel bounded by the text length), and an `ok` result is a complete tree the
+validator accepts — true by construction.  That the `panic` case never happens is `C23_totality_full`. -/
 theorem C23_parse_total (text : String) :
     (∃ ast, parse text = .ok ast ∧ ast.noErrorNode = true ∧ validate ast = []) ∨
     (∃ e, parse text = .error e) ∨ (∃ site, parse text = .panic site) := by
@@ -362,30 +360,23 @@ theorem C23_parse_total (text : String) :
   | error e => exact Or.inr (Or.inl ⟨e, rfl⟩)
   | panic s => exact Or.inr (Or.inr ⟨s, rfl⟩)
 
-/-- **Totality fails on the unchanged code**: a lens whose last field-name character is not ASCII
-panics in `lambda_ast_lexer.rs::tokenize_until` (`&input[start..end_pos + 1]` ends inside the
-character).  Replayed on the real parser by the harness (finding `parse-panic-non-ascii-lens`). -/
-theorem C23_panic_witness : (parse "(call \"p\" (\"s\" \"f\") [x.$.é])").isPanic = true := by decide
-
-/-- C23, totality part, at full strength: no text makes the parser panic.  NOT provable: `C23_totality_full_false`. -/
-def C23_totality_full : Prop := ∀ text : String, (parse text).isPanic = false
-
-theorem C23_totality_full_false : ¬ C23_totality_full := fun h => by
-  have := h "(call \"p\" (\"s\" \"f\") [x.$.é])"
-  rw [C23_panic_witness] at this
-  exact absurd this (by decide)
-
-/-- **No panic without multi-byte alphanumerics.**  The only panic site of the model is the slice of
-`tokenize_until`, reached only through an alphanumeric character longer than one byte.  If the text
-contains no such character (other non-ASCII characters — in string literals, comments, as white
-space, anywhere — are allowed), `parse` does not panic, and the unmodelled "syntax error, then
-possibly a panic while recovering" outcome does not arise either.
-Missing relative to `C23_totality_full`: exactly the texts with a non-ASCII alphanumeric character
-(of which those with such a character at the end of a lens field name do panic, `C23_panic_witness`). -/
-theorem C23_lexer_no_panic_partial (text : String)
-    (h : ∀ c ∈ text.toList, Lex.isLambdaAlphanumeric c = true → c.utf8Size = 1) :
+/-- **Totality, at full strength: no text makes the parser model panic.**  The Rust code indexes
+`str`s by byte ranges at three places — `tokenize_until` of the lens lexer (`&input[start_offset..]`,
+`&input[start_offset..end_pos]`), `parse_error` (`&input[token_wo_lens_len..]`) and
+`try_to_variable_and_lambda` (`[lambda_start_offset..]`, `[0..lambda_start_offset]`); the model keeps
+each of them as the checked `Lex.sliceBytes` (`none` = the panic of `str` indexing) and this theorem
+shows that every one is taken between two character boundaries, for every text.  The number
+conversions return `Err`; the position arithmetic is modelled over `Nat` (its three subtractions —
+`pos_in_string_to_parse() - 1`, `len() - 1`, `pos - start_pos` — sit behind guards `offset ≥ 1` /
+non-empty token; that is by inspection, not part of this theorem).  Consequently the unmodelled outcome "syntax error, then possibly a lexer panic
+while LALRPOP recovers" (`ParseError.syntaxThenPanic`) does not arise either.
+Before the repair 5981066 of `tokenize_until` (`[start_offset..end_pos + 1]`) this was false:
+`(call "p" ("s" "f") [x.$.é])` panicked, in the code and in the model.
+No other panic path remains in the model; outside the model are LALRPOP's automaton/recovery, the report
+rendering (codespan) and stack exhaustion on very deep nesting (property C01). -/
+theorem C23_totality_full (text : String) :
     (parse text).isPanic = false ∧ ∀ s, parse text ≠ .error (.syntaxThenPanic s) := by
-  obtain ⟨h1, h2⟩ := parseChars_no_panic text.toList h
+  obtain ⟨h1, h2⟩ := parseChars_no_panic text.toList
   refine ⟨?_, h2⟩
   unfold parse
   cases hp : parseChars text.toList with
@@ -393,8 +384,12 @@ theorem C23_lexer_no_panic_partial (text : String)
   | ok a => rfl
   | error e => rfl
 
--- a text with non-ASCII characters (literal, white space, comment) that meets the hypothesis
-example : ∀ c ∈ "(call \"p☃→\" (\"s\" \"f\")\u00a0[x.$.a.[0]!] ; ✓\n)".toList, Lex.isLambdaAlphanumeric c = true → c.utf8Size = 1 := by
-  set_option maxRecDepth 4000 in decide
+/-- regression of the repaired defect: a non-ASCII alphanumeric is an ordinary part of a lens field name -/
+example : parsesTo "(seq (call \"p\" (\"s\" \"f\") [] x) (call \"p\" (\"s\" \"f\") [x.$.é.aé٣b.[0]]))"
+    (.seq ⟨0, 72⟩ (.call ⟨5, 30⟩ (.literal "p") (.literal "s") (.literal "f") [] (.scalar "x"))
+      (.call ⟨31, 71⟩ (.literal "p") (.literal "s") (.literal "f")
+        [.scalarWL "x" (.path [.fieldByName "é", .fieldByName "aé٣b", .arrayAccess 0])] .none)) = true := by decide
+-- the former panic witness itself is now rejected by the validator only (`x` is undefined)
+example : (match parse "(call \"p\" (\"s\" \"f\") [x.$.é])" with | .error (.validator _) => true | _ => false) = true := by decide
 
 end AquaProps.C23
